@@ -1,5 +1,7 @@
 from mindsdb_sql.parser.ast.base import ASTNode
 from mindsdb_sql.parser.utils import indent
+from mindsdb_sql.parser.ast.select.identifier import name_to_string
+from mindsdb_sql.parser.ast.select.constant import Constant
 
 
 class Show(ASTNode):
@@ -35,7 +37,7 @@ class Show(ASTNode):
         in_str = f'\n{ind1}in={self.in_table.to_tree(level=level + 2)},' if self.in_table else ''
         where_str = f'\n{ind1}where=\n{self.where.to_tree(level=level+2)},' if self.where else ''
         name_str = f'\n{ind1}name={self.name},' if self.name else ''
-        like_str = f'\n{ind1}like={self.like},' if self.like else ''
+        like_str = f'\n{ind1}like={self.like},' if self.like is not None else ''
         modes_str = f'\n{ind1}modes=[{",".join(self.modes)}],' if self.modes else ''
         out_str = f'{ind}Show(' \
                   f'{category_str}' \
@@ -52,8 +54,9 @@ class Show(ASTNode):
 
         from_str = ''
         if self.from_table:
+            # FROM table FROM database
             ar = [
-                f'FROM {i}'
+                f'FROM {self.part_to_string(i)}'
                 for i in self.from_table.parts
             ]
             ar.reverse()
@@ -62,30 +65,39 @@ class Show(ASTNode):
         in_str = ''
         if self.in_table:
             ar = [
-                f'IN {i}'
+                f'IN {self.part_to_string(i)}'
                 for i in self.in_table.parts
             ]
             ar.reverse()
             in_str = ' ' + ' '.join(ar)
 
         modes_str = f' {" ".join(self.modes)}' if self.modes else ''
-        like_str = f" LIKE '{self.like}'" if self.like else ""
-        where_str = f' WHERE {str(self.where)}' if self.where else ''
+        like_str = f" LIKE {Constant(self.like).to_string()}" if self.like is not None else ""
+        where_str = f' WHERE {str(self.where)}' if self.where is not None else ''
 
         # custom commands
-        if self.category in ('FUNCTION CODE', 'PROCEDURE CODE', 'ENGINE') or self.category.startswith('ENGINE '):
-            return f'SHOW {self.category} {self.name}'
-        elif self.category == 'REPLICA STATUS':
+        if self.category == 'REPLICA STATUS':
             channel = ''
             if self.name is not None:
                 channel = f' FOR CHANNEL {self.name}'
-            return f'SHOW {self.category} {channel}'
+            out_str = f'SHOW {self.category}{channel}'
+        elif self.name is not None:
+            # SHOW FUNCTION CODE name, SHOW ENGINE name STATUS
+            name = self.name
+            if (
+                self.category.startswith('ENGINE ') and not self.modes
+                and isinstance(name, str) and name.upper() not in ('STATUS', 'MUTEX')
+            ):
+                # it is a part of an identifier here, the other names are kept as they are printed
+                name = self.part_to_string(name)
+            out_str = f'SHOW {self.category} {name}{modes_str}'
+        else:
+            out_str = f'SHOW{modes_str} {self.category}'
 
-        return f'SHOW{modes_str} {self.category}{from_str}{in_str}{like_str}{where_str}'
+        return f'{out_str}{from_str}{in_str}{like_str}{where_str}'
 
-
-
-
-
-
-
+    @staticmethod
+    def part_to_string(part):
+        if isinstance(part, str):
+            return name_to_string(part)
+        return str(part)
